@@ -10,7 +10,7 @@
    that is decided on every run by executing the real optimizer and comparing the unoptimized and the
    optimized grammar under Ref, the model and real parsers (C09_whole_optimizer_partial, DESIGN.md). *)
 From PV Require Import Lib.Base Lib.Utf8 Syntax.RGrammar Syntax.Code Model.PState Spec.Pos Model.Runtime Spec.Ref Proofs.OptLaws
-  Proofs.RefMono Proofs.CntInsens Proofs.RefOptLaws.
+  Proofs.RefMono Proofs.CntInsens Proofs.RefOptLaws Proofs.RefSeqLaw.
 
 Theorem C09_choice_in_choice_flattens : forall ev H R inv n a b d sc g m,
   (forall g0 m0, ev H R inv (EAlt n b) [] g0 m0 = ralt ev H R inv b [] g0 m0) ->
@@ -59,3 +59,13 @@ Theorem C09_ref_fuel_is_only_a_bound : forall c f f' H R inv e sc g m, f <= f' -
   reval c f H R inv e sc g m <> ROut -> reval c f' H R inv e sc g m = reval c f H R inv e sc g m.
 Proof. exact reval_mono_le. Qed.
 Print Assumptions C09_ref_fuel_is_only_a_bound.
+
+(* the sequence law for Ref itself: position, state, scope, log and global store are identical, the counter aside;
+   the value is regrouped only *)
+Theorem C09_ref_sequence_in_sequence_flattens : forall c, o_maxexpr (rO c) = 0%N ->
+  forall f H R inv n n' a b d sc g m,
+    reval c (S (S f)) H R inv (ESeq n (a ++ ESeq n' b :: d)) sc g m <> ROut ->
+    rsimg (reval c (S (S f)) H R inv (ESeq n (a ++ ESeq n' b :: d)) sc g m)
+          (reval c (S (S f)) H R inv (ESeq n (a ++ b ++ d)) sc g m).
+Proof. exact ref_sequence_in_sequence_flattens. Qed.
+Print Assumptions C09_ref_sequence_in_sequence_flattens.
